@@ -765,7 +765,14 @@ fn replay(args: &Args) {
     let mut steps = 0usize;
     let mut stats: BTreeMap<String, u64> = BTreeMap::new();
     for (bi, beh) in behs.iter().enumerate() {
-        let mut w = env.world(&beh["res"], &beh["init"]);
+        let mut w = match catch(|| env.world(&beh["res"], &beh["init"])) {
+            Ok(w) => w,
+            Err(msg) => {
+                out.emit(&json!({"toolerror": format!("cannot prepare the ledger of behaviour {}: {}", bi, msg)}));
+                out.flush();
+                std::process::exit(2);
+            }
+        };
         env.ledger.restore_snapshot(w.snap.clone());
         // the prepared ledger must be the model's initial ledger
         let got0 = project_for(&env, &w, Some(&beh["init"]["bal"]));
@@ -780,40 +787,56 @@ fn replay(args: &Args) {
             let fail = tx["fail"].as_i64().unwrap();
             let exp_err = tx["err"].as_str().unwrap_or("");
             steps += ins.len() + 1;
+            // Building the manifests is the harness's own job: anything it cannot build (unknown instruction kind, argument
+            // that cannot be concretised ...) is a TOOL error of this machinery, never an observation about the engine.
+            let k = fail.max(0) as usize;
+            let built = catch(|| {
+                let full = build(&env, &w, ins, ins.len(), false);
+                let (pa, pb) = if probe && !exp_ok {
+                    (Some(build(&env, &w, ins, k, true)), if k < ins.len() { Some(build(&env, &w, ins, k + 1, true)) } else { None })
+                } else {
+                    (None, None)
+                };
+                (full, pa, pb)
+            });
+            let (m, pa, pb) = match built {
+                Ok(x) => x,
+                Err(msg) => {
+                    out.emit(&json!({"toolerror": format!("cannot build the manifest of behaviour {} transaction {}: {}", bi, ti + 1, msg)}));
+                    out.flush();
+                    std::process::exit(2);
+                }
+            };
+            // Only the execution by the engine runs under `catch`: a panic there is data.
             let res = catch(|| {
-                let m = build(&env, &w, ins, ins.len(), false);
                 let proofs = env.proofs();
-                if probe && !exp_ok {
+                let mut probes = vec![];
+                if let Some(pa) = pa {
                     // the instructions before the predicted failing one must all succeed ...
-                    let k = fail as usize;
                     let a = env.ledger.execute_transaction_no_commit(
-                        build(&env, &w, ins, k, true)
-                            .into_executable_with_proofs(900_000 + steps as u32, proofs.iter().cloned().collect(), env.ledger.transaction_validator())
+                        pa.into_executable_with_proofs(900_000 + steps as u32, proofs.iter().cloned().collect(), env.ledger.transaction_validator())
                             .unwrap(),
                         ExecutionConfig::for_test_transaction(),
                     );
                     let (oa, ea) = outcome(&a);
-                    let mut probes = vec![(format!("prefix[0..{})+cleanup", k), "ok".to_string(), oa, ea)];
-                    // ... and the prefix including it must fail even when everything is cleaned up afterwards
-                    if k < ins.len() {
-                        let b2 = env.ledger.execute_transaction_no_commit(
-                            build(&env, &w, ins, k + 1, true)
-                                .into_executable_with_proofs(950_000 + steps as u32, proofs.iter().cloned().collect(), env.ledger.transaction_validator())
-                                .unwrap(),
-                            ExecutionConfig::for_test_transaction(),
-                        );
-                        let (ob, eb) = outcome(&b2);
-                        probes.push((format!("prefix[0..{}]+cleanup", k), "fail".to_string(), ob, eb));
-                    }
-                    (env.ledger.execute_manifest(m, proofs), probes)
-                } else {
-                    (env.ledger.execute_manifest(m, proofs), vec![])
+                    probes.push((format!("prefix[0..{})+cleanup", k), "ok".to_string(), oa, ea));
                 }
+                if let Some(pb) = pb {
+                    // ... and the prefix including it must fail even when everything is cleaned up afterwards
+                    let b2 = env.ledger.execute_transaction_no_commit(
+                        pb.into_executable_with_proofs(950_000 + steps as u32, proofs.iter().cloned().collect(), env.ledger.transaction_validator())
+                            .unwrap(),
+                        ExecutionConfig::for_test_transaction(),
+                    );
+                    let (ob, eb) = outcome(&b2);
+                    probes.push((format!("prefix[0..{}]+cleanup", k), "fail".to_string(), ob, eb));
+                }
+                (env.ledger.execute_manifest(m, proofs), probes)
             });
             let (receipt, probes) = match res {
                 Ok(x) => x,
                 Err(msg) => {
-                    out.mismatch(bi, ti + 1, "panic", json!(if exp_ok { "ok" } else { "fail" }), json!(msg));
+                    out.mismatch(bi, ti + 1, "engine-panic", json!(if exp_ok { "ok" } else { "fail" }), json!(msg));
                     break;
                 }
             };
